@@ -121,8 +121,8 @@ claim("C23", "AST structural check of the lease/write critical section + who-may
       "Decides whether the lease test and the engine append form one critical section with respect to lease updates (two accepted idioms; known finding: check-then-lock-then-write), that "
       "every engine write goes through append_by_key under the bucket guard, and that every path of forward_append to the append has refreshed the leases first.", note=AST_NOTE, engine="ast", design="4/C23")
 claim("C24", "AST path enumeration of the frame loop + syntax-tree panic-site enumeration with typed discharge",
-      "Enumerates every acyclic path of one iteration of the frame loop: body consumed or connection closed, exactly one response per frame, payload pass-through in the command parser; and no function of client.rs reachable from the frame loop contains an undischarged panic site (a str cut at a byte position, unbounded index, unwrap/expect, panic macros), since a panic of the connection task leaves that frame and all later ones unanswered. "
-      "Holds for every byte stream because each path is covered; panics inside the controller methods called from client.rs are not followed.", note=AST_NOTE, engine="ast", design="4/C24")
+      "Enumerates every acyclic path of one iteration of the frame loop: body consumed or connection closed, exactly one response per frame, payload pass-through in the command parser; and no function of client.rs reachable from the frame loop, nor any NodeController method reachable from the calls it makes on the controller, contains an undischarged panic site (a str cut at a byte position, unbounded index, unwrap/expect, panic macros), since a panic of the connection task leaves that frame and all later ones unanswered. "
+      "Holds for every byte stream because each path is covered; panics inside Storage / Metadata / octopii methods called from the controller are not followed.", note=AST_NOTE, engine="ast", design="4/C24")
 claim("C25", "MIR (stub harness) codec obligations + written lemma",
       "Codec obligations on the MIR of wal_key / parse_wal_key (template bytes, argument order/types, resolved str methods with their literals, the symbolic expression of the result) "
       "plus the lemma in the evidence give parse(wal_key(t, s)) = (t, s) for all strings and all u64, hence injectivity.", design="4/C25",
